@@ -318,7 +318,7 @@ impl Exp {
     }
 
     /// Whether a division appears anywhere in the expression.
-    fn contains_division(&self) -> bool {
+    pub(crate) fn contains_division(&self) -> bool {
         match self {
             Exp::Number(_) | Exp::Variable(_) => false,
             Exp::BinOp(op, lhs, rhs) => {
